@@ -52,20 +52,30 @@ func main() {
 			os.Exit(2)
 		}
 		seen := map[string]bool{}
-		var names []string
+		var lines []string
 		for fn := range prog.AllFuncs {
-			if fn.Parent() != nil || fn.Package() == nil || !strings.HasPrefix(fn.Package().Pkg.Path(), an.ModulePath) {
+			if fn.Parent() != nil || fn.Package() == nil || fn.Origin() != nil || !strings.HasPrefix(fn.Package().Pkg.Path(), an.ModulePath) {
 				continue
 			}
-			if n := an.FuncQName(fn); !seen[n] {
+			if n := fn.String(); !seen[n] {
 				seen[n] = true
-				names = append(names, n)
+				lines = append(lines, fn.Package().Pkg.Path()+"\t"+n+"\t"+an.SigString(fn))
 			}
 		}
-		sort.Strings(names)
-		fmt.Println("# functions of the module on the reference tree (see an/known.go)")
-		for _, n := range names {
+		sort.Strings(lines)
+		fmt.Println("# functions of the module on the reference tree: package, qualified name, signature (see an/known.go)")
+		for _, n := range lines {
 			fmt.Println(n)
+		}
+	case "list-fields":
+		prog, err := an.Load(nil)
+		if err != nil {
+			fmt.Println(err)
+			os.Exit(2)
+		}
+		fmt.Println("# struct fields of the module on the reference tree: struct, index, name, type (see an/known.go)")
+		for _, l := range an.ListFields(prog) {
+			fmt.Println(l)
 		}
 	case "sweep":
 		// scverif sweep: load the tree once and run every property's quick rules; prints one line per
@@ -139,6 +149,9 @@ func runProp(p *props.Prop, tier string, overlay map[string][]byte) (c *an.Ctx, 
 		return nil, err
 	}
 	c = an.NewCtx(prog, p.ID, tier)
+	for _, r := range prog.Renames() {
+		c.Note("rename recognised: %s", r)
+	}
 	func() {
 		defer func() {
 			if r := recover(); r != nil {
